@@ -43,6 +43,7 @@ fn main() {
         "diags" => |t| front::diags(&t[1..]),
         "dump" => |t| dump::dump(&t[1..]),
         "visit" => |t| dump::visit(&t[1..]),
+        "emit" => |t| front::emit(&t[1..]),
         _ => {
             eprintln!("unknown component {comp}");
             std::process::exit(2);
